@@ -288,6 +288,8 @@ def _det(ctx, p, rng, log=False):
         if not log:
             worst_p = 0.0
             for d in range(D):
+                if not np.isfinite(got[d]):
+                    worst_p = float('inf'); break
                 e = float(abs(Q.Fraction(float(got[d])) - det[d].re) / (maj[d].re + Q.Fraction(1, 10 ** 300)))
                 worst_p = max(worst_p, e)
         else:
